@@ -35,7 +35,8 @@ ASSUMPTIONS = [
     "a merged command may replace two commands only if no other command lies on a dependency path between them",
 ]
 REQUIRED_MONITORS = ["merge:returned", "merge:composition-checked", "optimize:accounting", "optimize:net-action",
-                     "optimize:execution", "immutability", "pair-sweep", "merge:measured-dependencies"]
+                     "optimize:execution", "immutability", "pair-sweep", "merge:measured-dependencies",
+                     "merge:decomposition-of-result"]
 
 ONE_GATES = ["Dgate", "Xgate", "Zgate", "Sgate", "Rgate", "Pgate", "Kgate", "Vgate", "Fouriergate"]
 TWO_GATES = ["BSgate", "S2gate", "CXgate", "CZgate", "CKgate", "MZgate", "sMZgate"]
@@ -182,6 +183,21 @@ class Ctx:
         except Exception as e:
             rep.error("op_action", e)
             return
+        if r is not None and type(r).__name__ in ("Interferometer", "GaussianTransform") and R[0] == "affine":
+            # what runs is the decomposition of the merged operation, not its matrix parameter: the two must agree
+            # (constructors cache Bloch-Messiah factors / identity flags that a copied object would carry along)
+            rep.monitor("merge:decomposition-of-result")
+            try:
+                ns_ = r.ns if r.ns is not None else len(np.atleast_2d(r.p[0])) // (2 if type(r).__name__ == "GaussianTransform" else 1)
+                regs = [self.pu.RegRef(i) for i in range(ns_)]
+                D_ = ("affine",) + rg.net_action([self.sfutil.cmd_tuple(c) for c in self.decompose_fully(r, regs)], ns_)
+                okd, whyd = composition_ok(("affine", np.eye(2 * ns_), np.zeros((2 * ns_, 2 * ns_)), np.zeros(2 * ns_)), R, D_, tol=1e-7)
+                if not okd:
+                    rep.violation(an + ".merge", "result-decomposes-differently", "%s then %s merged into %s, whose decomposition does not "
+                                  "implement its own matrix: %s" % (describe(a), describe(b), describe(r), whyd), case)
+                    return
+            except Exception as e:
+                rep.error("merge.decomposition-of-result", e)
         if "opaque" in (A[0], B[0], R[0]):
             rep.observe("merge.unchecked-opaque:" + fam)
             return
@@ -679,6 +695,55 @@ def measured_merge_sweep(ctx, rep, rng):
                     describe(A), describe(B), type(e).__name__, str(e)[:120]), ctx.case)
 
 
+def decomposition_merge_cases(ctx, rep, rng, ncases):
+    """Direct merges of matrix-valued operations (the optimizer itself only merges their one-mode forms): identity first or
+    second, passive then active, cancelling pairs, generic pairs."""
+    ops = ctx.ops
+
+    def symp(kind, n):
+        if kind == "identity":
+            return np.eye(2 * n)
+        if kind == "passive":
+            return rg.interferometer_S(gen.haar(rng, n))
+        if kind == "squeeze":
+            r = rng.uniform(0.2, 0.8, n) * rng.choice([-1, 1], n)
+            return np.diag(np.concatenate([np.exp(-r), np.exp(r)]))
+        return gen.random_symplectic(rng, n, True, rng.uniform(-0.6, 0.6, n))
+
+    def unit(kind, n):
+        if kind == "identity":
+            return np.eye(n, dtype=complex)
+        if kind == "phases":
+            return np.diag(np.exp(1j * rng.uniform(0, 6.28, n)))
+        return gen.haar(rng, n)
+
+    for _ in range(ncases):
+        n = int(rng.choice([1, 1, 2, 3]))
+        if rng.random() < 0.5:
+            k1, k2 = (str(x) for x in rng.choice(["identity", "passive", "squeeze", "generic"], 2))
+            S1, S2 = symp(k1, n), symp(k2, n)
+            if rng.random() < 0.15:
+                S2 = np.linalg.inv(S1)
+            A, B = ops.GaussianTransform(S1), ops.GaussianTransform(S2)
+            ctx.case = {"decomposition-merge": ["GaussianTransform", n, k1, k2]}
+        else:
+            k1, k2 = (str(x) for x in rng.choice(["identity", "phases", "haar"], 2))
+            U1, U2 = unit(k1, n), unit(k2, n)
+            if rng.random() < 0.15:
+                U2 = U1.conj().T
+            mesh = str(rng.choice(["rectangular", "triangular", "rectangular_phase_end"]))
+            A, B = ops.Interferometer(U1, mesh=mesh), ops.Interferometer(U2, mesh=mesh)
+            ctx.case = {"decomposition-merge": ["Interferometer", n, k1, k2, mesh]}
+        rep.monitor("decomposition-merge-cases")
+        try:
+            A.merge(B)
+        except ctx.pu.MergeFailure:
+            pass
+        except Exception as e:
+            rep.violation(type(A).__name__ + ".merge", "exception:" + type(e).__name__, "%s.merge(%s) raised %s: %s" % (
+                describe(A), describe(B), type(e).__name__, str(e)[:120]), ctx.case)
+
+
 def plan(tier, seed, scale=1.0):
     n = int((500 if tier == "quick" else 9000) * scale)
     return [{"n": n, "timeout": 6000, "sweep": i == 0} for i in range(16)]
@@ -695,6 +760,10 @@ def run_shard(shard, rep):
             rep.error("measured_merge_sweep", e)
     else:
         rep.monitor("pair-sweep", 0)
+    try:
+        decomposition_merge_cases(ctx, rep, rng, max(12, shard["n"] // 25))
+    except Exception as e:
+        rep.error("decomposition_merge_cases", e)
     for i in range(shard["n"]):
         spec = gen_program(rng)
         r = rng.random()
